@@ -636,6 +636,7 @@ public:
   // it must not hide a violation of the property that is being decided (a
   // broken task graph is C07's business, but the lost conservation that
   // follows from it is C04's).
+  std::map< size_t, std::string > dbg_sys[2]; // RHD_DEBUG_GRAD
   std::set< std::string > my_classes;
   std::set< std::string > foreign_classes_seen;
   void fail(const std::string &vclass, const std::string &msg) {
@@ -993,7 +994,8 @@ public:
   uint64_t switches_before = 0;
   static uint64_t switch_probes() {
     return probe_count("hydro_positivity_clamp") +
-           probe_count("hydro_flux_limiter") + probe_count("riemann_vacuum");
+           probe_count("hydro_flux_limiter") + probe_count("riemann_vacuum") +
+           probe_count("hydro_slope_limiter_extremum");
   }
 
   // ---- sequential reference of one step (C10) ----
@@ -1042,8 +1044,39 @@ public:
             boundaries->get_boundary_condition((int_fast8_t)face_dir(a, -1)));
       }
     }
+    if (getenv("RHD_DEBUG_GRAD")) {
+      // limiter bounds of v_z in the reference, before they are used
+      int idx = 0;
+      for (auto it = r.hydro_begin(); it != r.hydro_end(); ++it, ++idx) {
+        const size_t gi = cell_index(it.get_cell_midpoint());
+        fprintf(stderr, "step %d ref cell %zu vz %.17g lim [%.17g %.17g] grad_y %.17g\n",
+                step, gi, it.get_hydro_variables().primitives(3),
+                r._primitive_variable_limiters[10 * idx + 6],
+                r._primitive_variable_limiters[10 * idx + 7],
+                it.get_hydro_variables().primitive_gradients(3)[1]);
+      }
+    }
     r.apply_slope_limiter(h);
+    auto dbg_dump = [&](int which) {
+      if (!getenv("RHD_DEBUG_GRAD"))
+        return;
+      for (auto it = r.hydro_begin(); it != r.hydro_end(); ++it) {
+        const size_t gi = cell_index(it.get_cell_midpoint());
+        HydroVariables &hv = it.get_hydro_variables();
+        std::string tx;
+        for (int q = 0; q < 5; ++q)
+          tx += sfmt(" %d:[%.17g %.17g %.17g|%.17g]", q,
+                     hv.primitive_gradients(q)[0], hv.primitive_gradients(q)[1],
+                     hv.primitive_gradients(q)[2], hv.primitives(q));
+        if (dbg_sys[which].count(gi) && dbg_sys[which][gi] != tx)
+          fprintf(stderr, "step %d after %s cell %zu:\n  sys%s\n  ref%s\n", step,
+                  which == 0 ? "limiter" : "prediction", gi,
+                  dbg_sys[which][gi].c_str(), tx.c_str());
+      }
+    };
+    dbg_dump(0);
     r.predict_primitive_variables(h, 0.5 * step_dt);
+    dbg_dump(1);
     r.inner_flux_sweep(h, step_dt);
     for (int a = 0; a < 3; ++a) {
       if (c.periodic(a)) {
@@ -1076,6 +1109,35 @@ public:
         rf[gi].cons[q] = hv.conserved((uint_fast8_t)q);
         rf[gi].prim[q] = hv.primitives((uint_fast8_t)q);
       }
+    }
+    if (getenv("RHD_DEBUG_GRAD")) {
+      // gradients (as limited and used in this step) of both sides
+      std::map< size_t, std::string > gs, gr;
+      for (auto it = r.hydro_begin(); it != r.hydro_end(); ++it) {
+        const size_t gi = cell_index(it.get_cell_midpoint());
+        HydroVariables &hv = it.get_hydro_variables();
+        std::string t;
+        for (int q = 0; q < 5; ++q)
+          t += sfmt(" [%.17g %.17g %.17g]", hv.primitive_gradients(q)[0],
+                    hv.primitive_gradients(q)[1], hv.primitive_gradients(q)[2]);
+        gr[gi] = t;
+      }
+      for (int sg = 0; sg < lay.norig(); ++sg) {
+        HydroDensitySubGrid &g = *creator->get_subgrid((size_t)sg);
+        for (auto it = g.hydro_begin(); it != g.hydro_end(); ++it) {
+          const size_t gi = cell_index(it.get_cell_midpoint());
+          HydroVariables &hv = it.get_hydro_variables();
+          std::string t;
+          for (int q = 0; q < 5; ++q)
+            t += sfmt(" [%.17g %.17g %.17g]", hv.primitive_gradients(q)[0],
+                      hv.primitive_gradients(q)[1], hv.primitive_gradients(q)[2]);
+          gs[gi] = t;
+        }
+      }
+      for (auto &kv : gs)
+        if (kv.second != gr[kv.first])
+          fprintf(stderr, "step %d cell %zu gradients differ\n  sys%s\n  ref%s\n",
+                  step, kv.first, kv.second.c_str(), gr[kv.first].c_str());
     }
     const int n1 = c.ncell[1], n2 = c.ncell[2], n0 = c.ncell[0];
     const double volume = (c.sides[0] / n0) * (c.sides[1] / n1) * (c.sides[2] / n2);
@@ -1299,6 +1361,22 @@ public:
       stop_seq[t] = now_seq();
       for (int s : touched(task_role[t]))
         running_on_sub.erase(s);
+      if (getenv("RHD_DEBUG_GRAD") &&
+          (task_role[t].kind == K_LIMIT || task_role[t].kind == K_PREDICT)) {
+        // debug: gradients after the limiter / state after the prediction
+        HydroDensitySubGrid &g =
+            *creator->get_subgrid((size_t)task_role[t].sub);
+        for (auto it = g.hydro_begin(); it != g.hydro_end(); ++it) {
+          const size_t gi = cell_index(it.get_cell_midpoint());
+          HydroVariables &hv = it.get_hydro_variables();
+          std::string tx;
+          for (int q = 0; q < 5; ++q)
+            tx += sfmt(" %d:[%.17g %.17g %.17g|%.17g]", q,
+                       hv.primitive_gradients(q)[0], hv.primitive_gradients(q)[1],
+                       hv.primitive_gradients(q)[2], hv.primitives(q));
+          dbg_sys[task_role[t].kind == K_LIMIT ? 0 : 1][gi] = tx;
+        }
+      }
       break;
     }
     case CMI_VERIF_EVENT_HYDRO_STEP_END: {
